@@ -255,12 +255,14 @@ pub fn plan(prop: &str, tier: Tier) -> Option<Plan> {
         "C03" => {
             p.armed = O_FRAMING;
             s2::add_whitespace_run_sweep(&mut p, q);
+            s2::add_repetition_sweep(&mut p, q);
             all_areas(&mut p, "C03", &all_hdr, &[0, 1, 2, 16], if q { 6 } else { 8 }, if q { 4 } else { 6 }, if q { 5 } else { 7 }, 1, &multi_req, &multi_resp);
             s2::add_template_mutations(&mut p, q, &[Backend::Native]);
         }
         "C04" => {
             p.armed = O_ZEROCOPY;
             s2::add_whitespace_run_sweep(&mut p, q);
+            s2::add_repetition_sweep(&mut p, q);
             all_areas(&mut p, "C04", &all_hdr, &[0, 1, 2, 16], if q { 6 } else { 8 }, if q { 4 } else { 6 }, 3, 1, &multi_req, &multi_resp);
             stretched(&mut p, "C04", &all_hdr, &[9, 17, 33], if q { 4 } else { 5 }, if q { 3 } else { 4 }, &multi_req, &multi_resp, &BACKENDS);
             s2::add_template_mutations(&mut p, q, &[Backend::Native]);
@@ -269,6 +271,7 @@ pub fn plan(prop: &str, tier: Tier) -> Option<Plan> {
         "C05" => {
             p.armed = O_HYGIENE;
             s2::add_whitespace_run_sweep(&mut p, q);
+            s2::add_repetition_sweep(&mut p, q);
             all_areas(&mut p, "C05", &all_hdr, &[4], if q { 6 } else { 8 }, if q { 4 } else { 6 }, 3, 1, &multi_req, &multi_resp);
             s2::add_template_mutations(&mut p, q, &BACKENDS);
             s2::add_lane_phase(&mut p, q, &BACKENDS);
@@ -278,6 +281,7 @@ pub fn plan(prop: &str, tier: Tier) -> Option<Plan> {
         "C06" => {
             p.armed = O_LANG;
             s2::add_whitespace_run_sweep(&mut p, q);
+            s2::add_repetition_sweep(&mut p, q);
             let none = Companions::None;
             let d = if q { 5 } else { 7 };
             p.phases.push(phase(&format!("C06: S1 request-line trees D={d}"), Backend::Native, tree_tasks(request_trees(&multi_req, 2, 1, d, 1, &none))));
@@ -303,6 +307,7 @@ pub fn plan(prop: &str, tier: Tier) -> Option<Plan> {
         "C07" => {
             p.armed = O_LANG;
             s2::add_whitespace_run_sweep(&mut p, q);
+            s2::add_repetition_sweep(&mut p, q);
             let none = Companions::None;
             let d = if q { 5 } else { 7 };
             p.phases.push(phase(&format!("C07: S1 status-line trees D={d}"), Backend::Native, tree_tasks(status_trees(&multi_resp, 2, 1, d, 1, &none))));
@@ -327,6 +332,7 @@ pub fn plan(prop: &str, tier: Tier) -> Option<Plan> {
         "C08" => {
             p.armed = O_LANG;
             s2::add_whitespace_run_sweep(&mut p, q);
+            s2::add_repetition_sweep(&mut p, q);
             let none = Companions::None;
             let d = if q { 8 } else { 10 };
             p.phases.push(phase(&format!("C08: S1 header trees (default options) D={d}"), Backend::Native, tree_tasks(header_trees(&def_hdr, &[4], 1, d, 1, &none))));
@@ -344,6 +350,7 @@ pub fn plan(prop: &str, tier: Tier) -> Option<Plan> {
         "C09" => {
             p.armed = O_LANG | O_FRAMING;
             s2::add_whitespace_run_sweep(&mut p, q);
+            s2::add_repetition_sweep(&mut p, q);
             let d = if q { 6 } else { 7 };
             p.phases.push(phase(&format!("C09: S1 chunk-size trees Σ^≤{d}"), Backend::Native, tree_tasks(chunk_trees(d, 1))));
             p.bounds.push(format!("S1: chunk size Σ(14)^≤{d} after 0/14/15/16/17 leading digits, E=1"));
@@ -359,6 +366,7 @@ pub fn plan(prop: &str, tier: Tier) -> Option<Plan> {
         "C11" => {
             p.armed = O_PARTIAL;
             s2::add_whitespace_run_sweep(&mut p, q);
+            s2::add_repetition_sweep(&mut p, q);
             all_areas(&mut p, "C11", &all_hdr, &[1, 16], if q { 6 } else { 8 }, if q { 4 } else { 6 }, if q { 5 } else { 7 }, 0, &multi_req, &multi_resp);
             s2::add_prefix_sweep(&mut p, q, &[Backend::Native]);
             s2::add_field_prefix_sweep(&mut p, q, &[Backend::Native]);
@@ -367,6 +375,7 @@ pub fn plan(prop: &str, tier: Tier) -> Option<Plan> {
         "C14" => {
             p.armed = O_LANG;
             s2::add_whitespace_run_sweep(&mut p, q);
+            s2::add_repetition_sweep(&mut p, q);
             let none = Companions::None;
             let d = if q { 6 } else { 8 };
             p.phases.push(phase(&format!("C14: S1 header trees, 16 response + 4 request option sets, D={d}"), Backend::Native, tree_tasks(header_trees(&all_hdr, &[4], 1, d, 1, &none))));
